@@ -51,6 +51,9 @@ MACROS = (
     A.macro("m11", (), A.par(A.gate("g", A.item("q", 2)), A.seq(A.loop("k", A.par(A.gate("m9", "a", 1)))))),
     # forwards its register parameter to a macro that indexes it by a parameter; and a body that is one loop
     A.macro("m12", ("r",), A.seq(A.loop("n", A.seq(A.gate("m9", "r", "k"))))),
+    # a parameter named like the SOURCE register of a header alias (c = q[k]): the alias keeps its header meaning inside
+    # the body, whatever register is passed for q
+    A.macro("m13", ("q",), A.seq(A.gate("g", "c"), A.gate("h", A.item("q", 0), 2.0))),
 )
 
 LEAVES = (
@@ -83,6 +86,7 @@ LEAVES2 = (
     # call *as written* inside the body shows when the outer macro is called twice)
     A.gate("m3", A.item("q", 2)),
     A.gate("m12", "q"),
+    A.gate("m13", "a"),
 )
 
 
